@@ -20,7 +20,11 @@ Inductive op :=
      [tie] = core's ValidateRegistryUpdate verdict, consulted only at equal revisions *)
 | Put (k : N) (e : entry) (valid tie : bool)
 | Get (k : N)
-| Info.
+| Info
+  (* the store's processed chain tip moves to height h (global_settings.last_scanned_index):
+     entries carry an expiration height, but nothing in the registry reads the tip — no entry is
+     dropped, hidden or uncounted when its expiration height passes *)
+| Tip (h : N).
 
 Inductive obs :=
 | ODone
@@ -39,6 +43,7 @@ Definition step (s : state) (o : op) : state * obs :=
   | SetLimit n => ({| entries := entries s; limit := n; metric := metric s |}, ODone)
   | Get k => (s, OGet (alookup k (entries s)))
   | Info => (s, OInfo (count s) (limit s) (metric s))
+  | Tip _ => (s, ODone)
   | Put k e valid tie =>
       if negb valid then (s, OPut false None)
       else match alookup k (entries s) with
